@@ -117,7 +117,13 @@ impl World {
 					progress |= self.do_drain(n);
 					self.do_forward(n);
 					progress |= self.do_pump(n);
-					progress |= self.do_relay(n);
+					// with crashes enabled the broadcaster is sometimes a block late, so that a crash
+					// can fall between a broadcast and its relay
+					let slow = *self.cfg.weights.get("Crash").unwrap_or(&0) > 0
+						&& (self.chain.tip_height() as usize + n) % 3 == 0;
+					if !slow {
+						progress |= self.do_relay(n);
+					}
 				}
 				if !progress || self.dead {
 					break;
